@@ -278,6 +278,8 @@ def check_linear(ctx, rule, body, local, allowed, what="entry", key_extra="", ca
         permitted = allowed(cs, i)       # (evaluated once: the predicates of some rules record what they accept)
         if not permitted and _scoped_continuation(ctx, rule, body, cs, i, allowed, what, key_extra, carriers):
             continue
+        if not permitted and _private_forwarder(ctx, rule, body, cs, i, allowed, what, key_extra, carriers):
+            continue
         if not permitted:
             ok = False
             ctx.bad(rule, key + "-consumed-by-" + (cs.name or "?"), loc(body, bb),
@@ -297,6 +299,48 @@ def check_linear(ctx, rule, body, local, allowed, what="entry", key_extra="", ca
     if ok:
         ctx.ok(rule, key, loc(body), "consumers: %s" % sorted({CallSite(body, bb, t).name for bb, (t, i) in lin.consumers.items()}))
     return lin
+
+
+def _private_forwarder(ctx, rule, body, cs, i, allowed, what, key_extra, carriers, _depth=[0]):
+    """the value was handed to a private function of the same crate (`self.enqueue(message)`): the obligation continues on that
+    function's parameter - it must be moved into exactly one permitted destination there"""
+    F = getattr(ctx, "_scoped_F", None) or ctx.facts("dbg")
+    if _depth[0] > 1:
+        return False
+    helpers = [hb for hb in local_callee_bodies(F, cs) if hb.kind != "Closure" and hb.crate == body.crate and not (hb.impl or {}).get("trait")
+               and len(cs.args) == hb.arg_count]
+    if not helpers:
+        return False
+    _depth[0] += 1
+    try:
+        good = True
+        for hb in helpers:
+            sub = _Quiet(ctx)
+            lin = check_linear(sub, rule, hb, i + 1, allowed, what=what, key_extra=key_extra + "@" + hb.name, carriers=carriers)
+            good = good and lin is not None and not sub.failed
+        return good
+    finally:
+        _depth[0] -= 1
+
+
+class _Quiet:
+    """a ctx that records whether something failed without reporting it (the caller reports in its own terms)"""
+    def __init__(self, ctx):
+        self._c, self.failed = ctx, False
+
+    def __getattr__(self, n):
+        return getattr(self._c, n)
+
+    def bad(self, *a, **k):
+        self.failed = True
+
+    def ok(self, *a, **k):
+        pass
+
+    def check(self, cond, *a, **k):
+        if not cond:
+            self.failed = True
+        return cond
 
 
 def _scoped_continuation(ctx, rule, body, cs, i, allowed, what, key_extra, carriers, _depth=[0]):
